@@ -1372,6 +1372,13 @@ Section RollbackCong.
   Hypothesis Hops : agree_ops base1 base2.
   Hypothesis Hrma : forall p, meq (a_removeall base1 p) (a_removeall base2 p).
 
+  Lemma remove_if_symlink_ext name : meq (remove_if_symlink base1 name) (remove_if_symlink base2 name).
+  Proof.
+    unfold remove_if_symlink. apply bind_ext; [apply try_ext; apply Hops|].
+    intros [fi|e]; [|apply meq_refl].
+    destruct (fi_kind fi); try apply meq_refl. apply Hops.
+  Qed.
+
   Lemma restore_file_ext name info : meq (restore_file base1 backup name info) (restore_file base2 backup name info).
   Proof.
     unfold restore_file. apply bind_ext; [apply meq_refl|]. intros [f|e]; [|apply meq_refl].
@@ -1379,6 +1386,8 @@ Section RollbackCong.
     apply bind_ext.
     - destruct (fi_kind fi); try apply meq_refl; apply try_ext; apply Hrma.
     - intros [u|e]; [|apply meq_refl].
+      apply bind_ext; [apply try_ext; apply remove_if_symlink_ext|].
+      intros [u2|e]; [|apply meq_refl].
       apply bind_ext; [|intro; apply meq_refl].
       apply try_ext. apply copy_file_ext. apply agree_ops_at. exact Hops.
   Qed.
@@ -1405,6 +1414,7 @@ Section RollbackCong.
       apply bind_ext; [apply collect_errs_ext; intro; apply Hops|]. intro e1.
       apply bind_ext.
       { apply collect_errs_ext. intro x. destruct (info_of_key infos x); [|apply meq_refl].
+        apply bind_ext; [apply remove_if_symlink_ext|]. intros _.
         apply copy_dir_ext. apply agree_ops_at. exact Hops. }
       intro e2. apply bind_ext.
       { apply collect_errs_ext. intro x. destruct (info_of_key infos x); [|apply meq_refl].
